@@ -3066,6 +3066,9 @@ class PlateSlicer(Slicer):
     def _get_slice_string(self, item):
         assert isinstance(item, tuple)
         left, right = item
+        if not len(range(*left.indices(len(self.plate.row_names)))) \
+                or not len(range(*right.indices(len(self.plate.column_names)))):
+            return '[]'  # no wells (slice(0, 0) would be named as the whole axis below)
         left_step = '' if left.step in (None, 1) else f":{left.step}"
         right_step = '' if right.step in (None, 1) else f":{right.step}"
         if left.start is None and left.stop is None and right.start is None and right.stop is None \
